@@ -14,13 +14,15 @@ Theorem c31_submitted_only_after_previous_succeeded : forall c tr1 tr2 t sn sf i
   find_inst (c_insts c) t = Some i ->
   In (BAtom (q, o_succeeded) false) (i_pre i) ->
   (exists s1 p, exec c (init_state c) tr1 = Some s1 /\ find_task (pool s1) t = Some p /\ p_manual p = true)
-  \/ In (EOutput q o_succeeded) tr1.
+  \/ emitted tr1 (q, o_succeeded)
+  \/ (exists s1 p, exec c (init_state c) tr1 = Some s1 /\ find_task (pool s1) t = Some p /\
+                   In (q, o_succeeded) (p_forced p)).
 Proof.
   intros c tr1 tr2 t sn sf i q H Hi Hin.
   destruct (submit_only_when_satisfied c tr1 tr2 t sn sf H) as [s1 [p [i' [H1 [Hf [Hi' [_ [_ [Hm|Hall]]]]]]]]].
   - left. eauto.
-  - right. rewrite Hi in Hi'. injection Hi' as <-. specialize (Hall _ Hin). cbn in Hall.
-    destruct Hall as [Hd|Hd]; [discriminate|exact Hd].
+  - rewrite Hi in Hi'. injection Hi' as <-. specialize (Hall _ Hin). cbn in Hall.
+    destruct Hall as [Hd|[Hd|Hd]]; [discriminate|right; left; exact Hd|right; right; eauto].
 Qed.
 
 (* An instance whose succeeded output is complete has left the active states
